@@ -65,8 +65,9 @@ func Seed() uint64 {
 }
 
 type workerOut struct {
-	sum *Summary
-	err string
+	sum   *Summary
+	err   string
+	crash *Failure
 }
 
 // Check runs the whole check of one property and returns the exit code.
@@ -126,31 +127,90 @@ func Check(p *Prop, tier string, workerExe string) int {
 			deadline = time.Duration(n) * time.Second
 		}
 	}
-	outs := make([]workerOut, workers)
+	outs := make([][]workerOut, workers)
 	var wg sync.WaitGroup
 	kp, _ := json.Marshal(knownPatterns)
+	progDir := ScratchDir("progress")
+	defer os.RemoveAll(progDir)
 	for w := 0; w < workers; w++ {
 		wg.Add(1)
 		go func(w int) {
 			defer wg.Done()
-			args := []string{"worker", "-p", p.ID, "-tier", tier, "-seed", strconv.FormatUint(seed, 10),
-				"-worker", strconv.Itoa(w), "-workers", strconv.Itoa(workers), "-known", string(kp),
-				"-deadline", strconv.Itoa(int(deadline.Seconds()))}
-			outs[w] = runWorkerProc(workerExe, args, deadline*3+120*time.Second)
+			from := 0
+			prog := filepath.Join(progDir, fmt.Sprintf("w%d.json", w))
+			for attempt := 0; attempt < 200; attempt++ {
+				_ = os.Remove(prog)
+				args := []string{"worker", "-p", p.ID, "-tier", tier, "-seed", strconv.FormatUint(seed, 10),
+					"-worker", strconv.Itoa(w), "-workers", strconv.Itoa(workers), "-known", string(kp),
+					"-deadline", strconv.Itoa(int(deadline.Seconds())), "-from", strconv.Itoa(from), "-progress", prog,
+					"-mem", strconv.Itoa(p.MemLimitMiB)}
+				o := runWorkerProc(workerExe, args, deadline*3+120*time.Second, prog, time.Duration(p.HangSeconds)*time.Second)
+				outs[w] = append(outs[w], o)
+				if o.sum != nil && o.sum.Done {
+					break
+				}
+				// the worker died: attribute the death to the announced trace
+				var pr Progress
+				b, err := os.ReadFile(prog)
+				if err != nil || json.Unmarshal(b, &pr) != nil || pr.Trace == nil {
+					outs[w][len(outs[w])-1].err = "worker died without announcing a trace: " + o.err
+					return
+				}
+				t := pr.Trace
+				if pr.Fault != nil {
+					t.Faults = []trace.Fault{*pr.Fault}
+				}
+				cls := crashClass(o.err)
+				if cls == "" {
+					outs[w][len(outs[w])-1].err = "worker died: " + o.err
+					return
+				}
+				outs[w][len(outs[w])-1].crash = &Failure{Signature: p.ID + "/fatal/" + cls, Detail: "worker process died while executing this trace: " + firstLine(o.err),
+					Seed: seed, RunIndex: pr.Idx, Trace: t, OrigOps: len(t.Ops), MinOps: len(t.Ops), Count: 1}
+				outs[w][len(outs[w])-1].err = ""
+				from = pr.Idx + 1
+			}
 		}(w)
 	}
 	wg.Wait()
 
 	// --- aggregate
 	agg := &Summary{Property: p.ID, Probes: map[string]int{}, Fired: map[string]int{}, KnownHits: map[string]int{}}
+	bySig := map[string]*Failure{}
 	fps := map[uint64]bool{}
 	states := map[uint64]bool{}
 	inter := map[uint64]bool{}
-	bySig := map[string]*Failure{}
-	for w, o := range outs {
-		if o.err != "" || o.sum == nil {
-			fmt.Printf("INFRA: worker %d: %s\n", w, o.err)
-			return 2
+	var flat []workerOut
+	for w, segs := range outs {
+		for _, o := range segs {
+			if o.err != "" {
+				fmt.Printf("INFRA: worker %d: %s\n", w, o.err)
+				return 2
+			}
+			flat = append(flat, o)
+		}
+	}
+	crashes := 0
+	for _, o := range flat {
+		if o.crash != nil {
+			crashes++
+			isKnown := false
+			for _, k := range knownPatterns {
+				if re, err := regexp.Compile("^(?:" + k + ")$"); err == nil && re.MatchString(o.crash.Signature) {
+					isKnown = true
+				}
+			}
+			if isKnown {
+				agg.KnownHits[o.crash.Signature]++
+			} else if g := bySig[o.crash.Signature]; g == nil {
+				c := *o.crash
+				bySig[o.crash.Signature] = &c
+			} else {
+				g.Count++
+			}
+		}
+		if o.sum == nil {
+			continue
 		}
 		s := o.sum
 		agg.Evaluations += s.Evaluations
@@ -332,7 +392,7 @@ func ratio(a, b int64) float64 {
 	return float64(a) / float64(b)
 }
 
-func runWorkerProc(exe string, args []string, hard time.Duration) workerOut {
+func runWorkerProc(exe string, args []string, hard time.Duration, prog string, hang time.Duration) workerOut {
 	cmd := exec.Command(exe, args...)
 	cmd.Env = append(os.Environ(), "GOMAXPROCS=1")
 	var stdout, stderr bytes.Buffer
@@ -343,16 +403,40 @@ func runWorkerProc(exe string, args []string, hard time.Duration) workerOut {
 	}
 	done := make(chan error, 1)
 	go func() { done <- cmd.Wait() }()
-	select {
-	case err := <-done:
-		if err != nil {
-			return workerOut{err: fmt.Sprintf("worker exited: %v\nstderr: %s", err, tail(stderr.String(), 2000))}
+	var procErr string
+	startT := time.Now()
+	tick := time.NewTicker(500 * time.Millisecond)
+	defer tick.Stop()
+wait:
+	for {
+		select {
+		case err := <-done:
+			if err != nil {
+				es := stderr.String()
+				head := es
+				if len(head) > 2500 {
+					head = head[:2500]
+				}
+				procErr = fmt.Sprintf("worker exited: %v\nstderr: %s\n...\n%s", err, head, tail(es, 800))
+			}
+			break wait
+		case <-tick.C:
+			if time.Since(startT) > hard {
+				_ = cmd.Process.Kill()
+				<-done
+				return workerOut{err: "worker watchdog fired (hard timeout)"}
+			}
+			if hang > 0 && prog != "" {
+				if st, err := os.Stat(prog); err == nil && time.Since(st.ModTime()) > hang {
+					_ = cmd.Process.Kill()
+					<-done
+					procErr = "HANG: no progress for " + hang.String()
+					break wait
+				}
+			}
 		}
-	case <-time.After(hard):
-		_ = cmd.Process.Kill()
-		return workerOut{err: "worker watchdog fired (hard timeout)"}
 	}
-	// last non-empty line starting with { is the summary
+	// the last summary line printed is the most complete one
 	var last string
 	sc := bufio.NewScanner(&stdout)
 	sc.Buffer(make([]byte, 1<<20), 1<<30)
@@ -362,14 +446,45 @@ func runWorkerProc(exe string, args []string, hard time.Duration) workerOut {
 			last = l
 		}
 	}
-	if last == "" {
-		return workerOut{err: "worker printed no summary; stderr: " + tail(stderr.String(), 2000)}
+	var sum *Summary
+	if last != "" {
+		var s Summary
+		if err := json.Unmarshal([]byte(last), &s); err == nil {
+			sum = &s
+		}
 	}
-	var s Summary
-	if err := json.Unmarshal([]byte(last), &s); err != nil {
-		return workerOut{err: "unparsable worker summary: " + err.Error()}
+	if procErr == "" && (sum == nil || !sum.Done) {
+		procErr = "worker printed no final summary; stderr: " + tail(stderr.String(), 2000)
 	}
-	return workerOut{sum: &s}
+	return workerOut{sum: sum, err: procErr}
+}
+
+// crashClass classifies the death of a worker process; "" = not a recognised
+// library-induced death (then it is infrastructure trouble).
+func crashClass(msg string) string {
+	switch {
+	case strings.HasPrefix(msg, "HANG"):
+		return "hang"
+	case strings.Contains(msg, "out of memory") || strings.Contains(msg, "cannot allocate memory"):
+		return "out-of-memory"
+	case strings.Contains(msg, "stack overflow") || strings.Contains(msg, "stack exceeds"):
+		return "stack-overflow"
+	case strings.Contains(msg, "fatal error:"):
+		return "fatal-runtime-error"
+	}
+	return ""
+}
+
+func firstLine(s string) string {
+	for _, l := range strings.Split(s, "\n") {
+		if strings.Contains(l, "fatal error") || strings.Contains(l, "HANG") || strings.Contains(l, "runtime:") {
+			return strings.TrimSpace(l)
+		}
+	}
+	if i := strings.Index(s, "\n"); i > 0 {
+		return s[:i]
+	}
+	return s
 }
 
 func tail(s string, n int) string {
@@ -382,7 +497,14 @@ func tail(s string, n int) string {
 // runReplay replays a trace file in a fresh process. Exit code 1 = violation
 // reproduced, 0 = nothing found, 2 = trouble.
 func runReplay(exe, path string) (int, string) {
-	cmd := exec.Command(exe, "replay", path)
+	mem, hang, prop := 0, 0, ""
+	if t, err := trace.Load(path); err == nil {
+		prop = t.Property
+		if p := Registry[t.Property]; p != nil {
+			mem, hang = p.MemLimitMiB, p.HangSeconds
+		}
+	}
+	cmd := exec.Command(exe, "replay", "-mem", strconv.Itoa(mem), path)
 	cmd.Env = append(os.Environ(), "GOMAXPROCS=1")
 	var out bytes.Buffer
 	cmd.Stdout = &out
@@ -392,17 +514,29 @@ func runReplay(exe, path string) (int, string) {
 		return 2, err.Error()
 	}
 	go func() { done <- cmd.Wait() }()
+	limit := 5 * time.Minute
+	if hang > 0 {
+		limit = time.Duration(hang) * time.Second
+	}
 	select {
 	case err := <-done:
 		if err == nil {
 			return 0, out.String()
 		}
+		o := out.String()
+		if cls := crashClass(o); cls != "" && prop != "" {
+			return 1, o + "\nsignature: " + prop + "/fatal/" + cls + "\n"
+		}
 		if ee, ok := err.(*exec.ExitError); ok {
-			return ee.ExitCode(), out.String()
+			return ee.ExitCode(), o
 		}
 		return 2, err.Error()
-	case <-time.After(5 * time.Minute):
+	case <-time.After(limit):
 		_ = cmd.Process.Kill()
+		<-done
+		if hang > 0 && prop != "" {
+			return 1, out.String() + "\nsignature: " + prop + "/fatal/hang\n"
+		}
 		return 2, "replay timed out"
 	}
 }
